@@ -416,6 +416,46 @@ func checkCase(prop string, c *Case, st *stats) {
 			sort.Strings(ks)
 			add("wrong-result|"+pattern(c, ks), "result differs from 'removals first, a set wins, named values as requested' (map order choices %v): %s", ch.taken, strings.Join(diffs, "; "))
 		}
+		if touches(c, "device") {
+			// every device the adjustment adds comes with a cgroup rule allowing exactly that device
+			if spec.Linux != nil {
+				for it, ev := range expC {
+					if it.Kind != "device" {
+						continue
+					}
+					set := false
+					for _, op := range c.Ops {
+						if op.Item == it && !op.Remove {
+							set = true
+						}
+					}
+					if !set {
+						continue
+					}
+					want := items.Device(it.Key, ev)
+					found := false
+					var rules []string
+					if spec.Linux.Resources != nil {
+						for _, r := range spec.Linux.Resources.Devices {
+							mj, mn := int64(-1), int64(-1)
+							if r.Major != nil {
+								mj = *r.Major
+							}
+							if r.Minor != nil {
+								mn = *r.Minor
+							}
+							rules = append(rules, fmt.Sprintf("%v %s %d:%d %s", r.Allow, r.Type, mj, mn, r.Access))
+							if r.Allow && r.Type == want.Type && mj == want.Major && mn == want.Minor {
+								found = true
+							}
+						}
+					}
+					if !found {
+						add("device-rule", "device %s (%s %d:%d) was added but no cgroup rule allows exactly that device; rules: %v (map order choices %v)", it.Key, want.Type, want.Major, want.Minor, rules, ch.taken)
+					}
+				}
+			}
+		}
 		if fv := frameViolations(c, base, spec); len(fv) > 0 {
 			add("frame", "parts of the spec that the adjustment does not name changed: %s", strings.Join(fv, "; "))
 		}
